@@ -670,10 +670,13 @@ def _make_case(rng, tool, computer, pre, post, syntax, variant, repeat=False, st
             for u in utts:
                 if u["n"] < 700:
                     u["n"] = int(rng.integers(700, 2401)) if computer is not None else max(u["n"], 2)
-        if computer is not None and _has(POSTS[post], "standardize"):
-            # >= 18 frames, i.e. >= 6 rows after Stack(3): a 3-row Standardize can have a column whose standard
-            # deviation is tiny by chance, which makes the comparison ill-conditioned (not a property of the tool)
-            for u in utts:
+    if computer is not None and _has(POSTS[post], "standardize"):
+        # >= 18 frames, i.e. >= 6 rows after Stack(3): Standardize.apply raises on a single row (pipeline
+        # undefined), and a 2-3 row Standardize can have a column whose standard deviation is tiny by chance,
+        # which makes the comparison ill-conditioned (not a property of the tool). Utterances meant to be too
+        # short for a frame (< 40 samples) or below --min-duration (< 400 samples) keep their length.
+        for u in utts:
+            if u["n"] >= 400:
                 u["n"] = int(rng.integers(1500, 2401))
     return case
 
